@@ -757,3 +757,19 @@ fn sieve_block_poly(s: &SieveMPQS, pol: &Poly, roots: [&[u32]; 2], st: &mut siev
         s.rels.write().unwrap().add(rel, pq);
     }
 }
+
+/// Verification hooks (only with `--cfg yamaquasi_verif`): the private parameter functions.
+#[cfg(yamaquasi_verif)]
+pub mod verif_hooks {
+    use super::*;
+
+    pub fn vh_mpqs_interval_size(n: &Uint) -> i64 {
+        mpqs_interval_size(n)
+    }
+    pub fn vh_large_prime_factor(n: &Uint) -> u64 {
+        large_prime_factor(n)
+    }
+    pub fn vh_double_large_factor(n: &Uint) -> u64 {
+        double_large_factor(n)
+    }
+}
